@@ -420,7 +420,7 @@ Assign(d, vs, am, v, cp, np) ==
 \* everything for one seam pattern.  Result: out, np, faces (points), used (bits consumed), pvidx / avidx (value index per point for the position
 \* attribute -- traversal over the position table -- and for the second attribute -- the same traversal over the attribute's table)
 Seamed(r, nf, bits) ==
-  LET none == [out |-> "none", np |-> 0, faces |-> <<>>, used |-> 0, pe |-> 0, pvidx |-> <<>>, avidx |-> <<>>] IN
+  LET none == [out |-> "none", np |-> 0, faces |-> <<>>, used |-> 0, pe |-> 0, ae |-> 0, pvidx |-> <<>>, avidx |-> <<>>] IN
   IF r.out # "acc" THEN none ELSE
   \* with attribute data the decoder does NOT renumber the vertices isolated by S symbols (remove_invalid_vertices = attribute_data_.empty()):
   \* the seam layer works on the table as it is before Compact
@@ -439,7 +439,7 @@ Seamed(r, nf, bits) ==
       ta == Traverse(da, nf)
       EntryC(t, pred(_)) == LET K == {k \in 1..Len(t.cor) : pred(t.cor[k])} IN IF K = {} THEN -1 ELSE (CHOOSE k \in K : \A j \in K : k <= j) - 1
   IN IF tp.err # "" \/ ta.err # "" THEN [none EXCEPT !.out = "any:traversal", !.used = s0.used] ELSE
-     [out |-> "acc", np |-> asg.np, faces |-> [c \in 1..(3 * nf) |-> asg.cp[c - 1]], used |-> s0.used, pe |-> Len(tp.order),
+     [out |-> "acc", np |-> asg.np, faces |-> [c \in 1..(3 * nf) |-> asg.cp[c - 1]], used |-> s0.used, pe |-> Len(tp.order), ae |-> Len(ta.order),
       \* a point holds the value of the vertex its corners belong to: the entry at which that vertex was reported
       \* UpdatePointToAttributeIndexMapping walks the corners in order and the last one wins: a point holds the entry of the vertex of its LAST corner;
       \* a vertex the traversal never reported stands for entry 0 (the decoder's map starts as zeros); a point named by no face keeps no value (-1)
@@ -451,6 +451,59 @@ Seamed(r, nf, bits) ==
                                        THEN LET c0 == CHOOSE c \in C : asg.cp[c] = pt - 1 /\ \A c2 \in C : asg.cp[c2] = pt - 1 => c2 <= c
                                                 e == EntryC(ta, LAMBDA x : rc.am[x] = rc.am[c0]) IN IF e < 0 THEN 0 ELSE e
                                        ELSE -1]]
+
+\* ---------------------------------------------------------------- two attributes with connectivity of their own
+\* Both read a bit for the same edges, each from its own stream.  A vertex off every hole starts its points at the first corner where the FIRST
+\* attribute that is on a seam at its left-most corner changes its vertex (later attributes are consulted only when earlier ones show no change); a new
+\* point starts wherever ANY attribute changes.
+RECURSIVE FindFirst2(_, _, _, _, _, _), Spread2(_, _, _, _, _, _, _, _), Assign2(_, _, _, _, _, _)
+FindFirst2(d, vss, ams, v, c, i) ==
+  IF i > Len(ams) THEN [ok |-> TRUE, first |-> c]
+  ELSE IF v \notin vss[i] THEN FindFirst2(d, vss, ams, v, c, i + 1)
+  ELSE LET ff == FindFirst(d, ams[i], c, SwingR(d, c), ams[i][c], 3 * Len(d.vc) + 12) IN
+       IF ~ff.ok THEN ff
+       ELSE IF ff.first # c THEN ff
+       ELSE FindFirst2(d, vss, ams, v, c, i + 1)
+Spread2(d, ams, first, prev, c, cp, np, fuel) ==
+  IF c = INV \/ c = first THEN [cp |-> cp, np |-> np, err |-> ""]
+  ELSE IF fuel = 0 THEN [cp |-> cp, np |-> np, err |-> "ub:point-fan-does-not-end"]
+  ELSE IF cp[c] # -1 THEN [cp |-> cp, np |-> np, err |-> "rej:corner-assigned-twice"]
+  ELSE IF \E i \in 1..Len(ams) : ams[i][c] # ams[i][prev] THEN Spread2(d, ams, first, c, SwingR(d, c), [cp EXCEPT ![c] = np], np + 1, fuel - 1)
+  ELSE Spread2(d, ams, first, c, SwingR(d, c), [cp EXCEPT ![c] = cp[prev]], np, fuel - 1)
+Assign2(d, vss, ams, v, cp, np) ==
+  IF v = Len(d.vc) THEN [cp |-> cp, np |-> np, err |-> ""] ELSE
+  LET c == d.vc[v + 1] IN
+  IF c = INV THEN Assign2(d, vss, ams, v + 1, cp, np) ELSE
+  LET ff == IF v \notin d.nh THEN [ok |-> TRUE, first |-> c] ELSE FindFirst2(d, vss, ams, v, c, 1) IN
+  IF ~ff.ok THEN [cp |-> cp, np |-> np, err |-> IF ff.first = INV THEN "ub:point-fan-does-not-end" ELSE "rej:assign-open-fan"] ELSE
+  IF cp[ff.first] # -1 THEN [cp |-> cp, np |-> np, err |-> "rej:corner-assigned-twice"] ELSE
+  LET sp == Spread2(d, ams, ff.first, ff.first, SwingR(d, ff.first), [cp EXCEPT ![ff.first] = np], np + 1, 3 * Len(d.vc) + 12) IN
+  IF sp.err # "" THEN sp ELSE Assign2(d, vss, ams, v + 1, sp.cp, sp.np)
+Seamed2(r, nf, b1, b2) ==
+  LET none == [out |-> "none", np |-> 0, faces |-> <<>>, used |-> 0, pe |-> 0, ae |-> 0, pvidx |-> <<>>, avidx |-> <<>>, avidx2 |-> <<>>] IN
+  IF r.out # "acc" THEN none ELSE
+  LET d == r.du
+      C == 0..(3 * nf - 1)
+      s1 == SeamCorners(d, nf, b1)  s2 == SeamCorners(d, nf, b2)
+      e1 == EdgeSeams(d, s1.sc)  e2 == EdgeSeams(d, s2.sc)
+      v1 == VertSeams(d, e1)  v2 == VertSeams(d, e2)
+      r1 == ARecompute(d, e1, v1, 0, [c \in C |-> INV], <<>>)
+      r2 == ARecompute(d, e2, v2, 0, [c \in C |-> INV], <<>>) IN
+  IF r1.err # "" THEN [none EXCEPT !.out = r1.err, !.used = s1.used] ELSE
+  IF r2.err # "" THEN [none EXCEPT !.out = r2.err, !.used = s1.used] ELSE
+  LET asg == Assign2(d, <<v1, v2>>, <<r1.am, r2.am>>, 0, [c \in C |-> -1], 0) IN
+  IF asg.err # "" THEN [none EXCEPT !.out = asg.err, !.used = s1.used] ELSE
+  IF \E c \in C : asg.cp[c] = -1 THEN [none EXCEPT !.out = "rej:corner-without-point", !.used = s1.used] ELSE
+  LET tp == Traverse(d, nf)
+      t1 == Traverse([opp |-> [c \in C |-> AOpp(d, e1, c)], ctv |-> r1.am, vc |-> r1.alm], nf)
+      t2 == Traverse([opp |-> [c \in C |-> AOpp(d, e2, c)], ctv |-> r2.am, vc |-> r2.alm], nf)
+      EntryC(t, pred(_)) == LET K == {k \in 1..Len(t.cor) : pred(t.cor[k])} IN IF K = {} THEN 0 ELSE (CHOOSE k \in K : \A j \in K : k <= j) - 1
+      Last(pt) == CHOOSE c \in C : asg.cp[c] = pt - 1 /\ \A c2 \in C : asg.cp[c2] = pt - 1 => c2 <= c
+  IN IF tp.err # "" \/ t1.err # "" \/ t2.err # "" THEN [none EXCEPT !.out = "any:traversal", !.used = s1.used] ELSE
+     [out |-> "acc", np |-> asg.np, faces |-> [c \in 1..(3 * nf) |-> asg.cp[c - 1]], used |-> s1.used, pe |-> Len(tp.order), ae |-> Len(t1.order),
+      pvidx |-> [pt \in 1..asg.np |-> IF \E c \in C : asg.cp[c] = pt - 1 THEN EntryC(tp, LAMBDA x : d.ctv[x] = d.ctv[Last(pt)]) ELSE -1],
+      avidx |-> [pt \in 1..asg.np |-> IF \E c \in C : asg.cp[c] = pt - 1 THEN EntryC(t1, LAMBDA x : r1.am[x] = r1.am[Last(pt)]) ELSE -1],
+      avidx2 |-> [pt \in 1..asg.np |-> IF \E c \in C : asg.cp[c] = pt - 1 THEN EntryC(t2, LAMBDA x : r2.am[x] = r2.am[Last(pt)]) ELSE -1]]
 
 \* ---------------------------------------------------------------- the attribute decoder headers (CreateAttributesDecoder)
 \* nad attribute-data blocks were announced with the connectivity; every attribute decoder names one (id >= 0) or the position data (any negative
